@@ -195,6 +195,12 @@ func (e *evaluator) complete(v interface{}, tr TypeRef, subs []*SelSet, path []s
 		}
 		return e.object(tr.Name, v, subs, path, false)
 	case KUnion:
+		if so, ok := v.(*Solo); ok {
+			if so == nil || so.Leaf == nil {
+				return nil
+			}
+			return e.object("Leaf", so.Leaf, subs, path, true)
+		}
 		th, _ := v.(*Thing)
 		if th == nil {
 			return nil
